@@ -84,7 +84,7 @@ def r2_one_context(ctx, R2, ssl_kw):
         fop, fa = destruct(fn)
         okf = fop in ("get", "idx") and fa[:1] == ("self.key_fn_by_scheme",) and len(fa) >= 2 and _atoms(fa[1]) <= {RC, K("scheme")} and RC in _atoms(fa[1])
         ctx.ob(R2, cfc.qual, "key function is looked up in key_fn_by_scheme by this context's scheme", okf, fn[:100], witness=r.witness(), node=cfc.node)
-        bad = [x for x in muts if not (x[0] == "pop" and x[1] == K("strict"))]
+        bad = [x for x in muts if not (x[0] in ("pop", "del") and x[1] == K("strict"))]
         ctx.ob(R2, cfc.qual, "context not altered between keying and pool creation", not bad, "; ".join(map(str, bad))[:200], witness=r.witness(), node=cfc.node)
     # ---- _new_pool
     newpool = m.func(f"{MGR}._new_pool")
@@ -118,7 +118,8 @@ def r2_one_context(ctx, R2, ssl_kw):
                     ok = http is True
                     detail = "SSL keywords stripped only for scheme http" if ok else "TLS settings are dropped for a non-http pool: pools with different TLS settings become interchangeable"
             elif kind == "store":
-                ok = key == K("blocksize") and destruct(val or "")[0] == "const" and r.is_none(T("get", C, K("blocksize"))) is True
+                missing = r.is_none(T("get", C, K("blocksize"))) is True or r.cmp(K("blocksize"), "in", C) is False or r.is_none(T("idx", C, K("blocksize"))) is True
+                ok = key == K("blocksize") and destruct(val or "")[0] == "const" and missing
                 detail = "default for a missing entry" if ok else "adds/overrides a setting that was not keyed"
             else:
                 ok, detail = False, f"{kind} on the keyed context"
@@ -244,6 +245,12 @@ def r4_normaliser(ctx, R4, R1):
                 else:
                     unfiltered = False
                     why.append(f"store {key[:50]} = {str(val)[:50]}")
+            elif kind == "setdefault":
+                ok_ = key == T("each", f"{KC}._fields") and val == ("None",)
+                dflt = ok_ if dflt is None else (dflt and ok_)
+                if not ok_:
+                    unfiltered = False
+                    why.append(f"setdefault {key}")
             elif kind == "pop":
                 # only as the source of the rename
                 renames = [x for x in _mutations(r, C) if x[0] == "store" and x[2] == T(f"{C}.pop", key)]
